@@ -1,8 +1,8 @@
 """C18 — contracts on io.write_cube / io.read_dx (DX -> cube conversion)."""
 from pyvc.api import (Const, DictOf, Enum, Int, Items, ListOf, Loop, Named, Obj, Opt, OutFile, Real, Ref,
-                      SeqOf, Str, TupleOf, contract, harness, implies, forall)
+                      SeqOf, Str, TupleOf, contract, harness, implies, forall, fmt)
 
-BIND = {}
+BIND = {"read_dx": "pdb2pqr.io:read_dx", "write_cube": "pdb2pqr.io:write_cube"}
 
 
 def V3():
@@ -64,3 +64,39 @@ def _cube(natoms, name):
 
 _cube(2, "write_cube")
 _cube(0, "write_cube.noatoms")
+
+
+# ---------------------------------------------------------------- read_dx: values in file order, counts / origin / deltas
+
+@harness("C18",
+         params={"nx": Int, "ny": Int, "nz": Int, "o": V3(), "d": ListOf(V3(), 3), "v": ListOf(Real, 7)},
+         requires=["nx >= 0 and ny >= 0 and nz >= 0 and nx < 100000 and ny < 100000 and nz < 100000",
+                   "forall(range(7), lambda i: len(fmt(v[i], '.6f')) <= 12)"],
+         ensures=[
+             # every data value exactly once, in file order, whatever the number of values per line (3, 3, 1 here)
+             "len(result['values']) == 7",
+             "forall(range(7), lambda i: result['values'][i] == float(fmt(v[i], '.6f')))",
+             "result['number of grid points'] == (nx, ny, nz)",
+             "forall(range(3), lambda i: result['lower left corner'][i] == float(fmt(o[i], '.6f')))",
+             "forall(range(3), lambda i: forall(range(3), lambda j: result['grid spacing'][i][j] == float(fmt(d[i][j], '.6f'))))",
+         ],
+         name="read_dx.values_in_order")
+def read_dx_lines(nx, ny, nz, o, d, v):
+    lines = [
+        "# Data from APBS\n",
+        "#\n",
+        "object 1 class gridpositions counts " + fmt(nx, "d") + " " + fmt(ny, "d") + " " + fmt(nz, "d") + "\n",
+        "origin " + fmt(o[0], ".6f") + " " + fmt(o[1], ".6f") + " " + fmt(o[2], ".6f") + "\n",
+        "delta " + fmt(d[0][0], ".6f") + " " + fmt(d[0][1], ".6f") + " " + fmt(d[0][2], ".6f") + "\n",
+        "delta " + fmt(d[1][0], ".6f") + " " + fmt(d[1][1], ".6f") + " " + fmt(d[1][2], ".6f") + "\n",
+        "delta " + fmt(d[2][0], ".6f") + " " + fmt(d[2][1], ".6f") + " " + fmt(d[2][2], ".6f") + "\n",
+        "object 2 class gridconnections counts 1 1 1\n",
+        "object 3 class array type double rank 0 items 7 data follows\n",
+        fmt(v[0], ".6f") + " " + fmt(v[1], ".6f") + " " + fmt(v[2], ".6f") + "\n",
+        fmt(v[3], ".6f") + " " + fmt(v[4], ".6f") + " " + fmt(v[5], ".6f") + "\n",
+        fmt(v[6], ".6f") + "\n",
+        'attribute "dep" string "positions"\n',
+        'object "regular positions regular connections" class field\n',
+        'component "positions" value 1\n',
+    ]
+    return read_dx(lines)
